@@ -41,10 +41,14 @@ def params(tier, rng):
         out.append({"kind": "mirjalili", "m": m, "Q": Q, "D": D})
     # spaces too large to list (> 2^20 rows): sampled rows, every action and event on them
     out.append({"kind": "demoor", "m": 3, "L": 1, "Q": 101, "D": 2, "fifo": True, "sample": 30, "sample_seed": rng.randrange(10 ** 6)})
+    # beyond 2^24 states (integers that single precision cannot hold), in a process without 64-bit mode and in one with
+    out.append({"kind": "forest", "S": 2 ** 24 + 9, "p": 0.25, "sample": 60, "sample_seed": rng.randrange(10 ** 6), "no_x64": True})
+    out.append({"kind": "demoor", "m": 2, "L": 1, "Q": 2, "D": 3, "fifo": True, "no_x64": True})
     if tier == "thorough":
+        out.append({"kind": "forest", "S": 2 ** 24 + 9, "p": 0.5, "sample": 200, "sample_seed": rng.randrange(10 ** 6)})
         out.append({"kind": "demoor", "m": 2, "L": 3, "Q": 32, "D": 3, "fifo": False, "sample": 60, "sample_seed": rng.randrange(10 ** 6)})
         out.append({"kind": "mirjalili", "m": 8, "Q": 5, "D": 1, "sample": 12, "sample_seed": rng.randrange(10 ** 6)})
-        out.append({"kind": "hendrix", "m": 2, "Qa": 40, "Qb": 25, "sample": 1, "sample_seed": rng.randrange(10 ** 6)})
+        # (no large Hendrix instance: one state alone has ~10^3 actions x ~4*10^3 events to judge)
         out.append({"kind": "forest", "S": 2 ** 20 + 3, "p": 0.25, "sample": 200, "sample_seed": rng.randrange(10 ** 6)})
     # the same dynamics after the problem has been rebuilt from its configuration through YAML (the route restore() takes):
     # strings, tuples and numbers come back as other objects / types
@@ -61,12 +65,17 @@ def params(tier, rng):
 
 
 def observe(ps):
-    nproc = min(C.NCPU, 12, len(ps))
-    chunks = [ps[i::nproc] for i in range(nproc)]
+    # parameterisations observed in a process that never switches 64-bit mode on get a worker of their own
+    plain = [P for P in ps if not P.get("no_x64")]
+    single = [P for P in ps if P.get("no_x64")]
+    nproc = min(C.NCPU, 12, max(1, len(plain)))
+    chunks = [plain[i::nproc] for i in range(nproc)] + ([single] if single else [])
+    nproc = len(chunks)
     with C.Scratch("verif-inv-") as d:
         def work(i):
             out = d / f"obs{i}.json"
             p = C.run_python(["-m", "harness.workers.inventory_worker"],
+                             extra_env={"VERIF_WORKER_NO_X64": "1"} if chunks[i] and chunks[i][0].get("no_x64") else None,
                              input_json={"params": chunks[i], "out": str(out)}, cwd=str(C.VERIF))
             if p.returncode != 0:
                 raise C.MachineryError("inventory worker failed: " + p.stderr[-2000:])
